@@ -237,6 +237,13 @@ def streams(tier, rng, fs, profile):
             m = rng.choice([0, 1, (1 << (p - 1)) - 1, rng.getrandbits(p - 1), rng.getrandbits(p - 1)])
             b = (e << (p - 1)) | m | (rng.getrandbits(1) << (p + eb - 1))
             rops.append("wf %s %x %x %s -" % (ty, f, b, gw.opt_str(o)))
+        if gens.has_format(fs) and 36 in rads:
+            # all-zero digit strings under required_exponent_notation in a generic radix (panicked before /repo f386e72)
+            for ty in ("f64", "f32"):
+                p, eb = gens.FLOAT_TYPES[ty]
+                for b in (0, 1 << (p + eb - 1), 1, 2):
+                    for o in (gens.wopts(exp=94), gens.wopts(exp=94, trim=1, mn=7)):
+                        rops.append("wf %s %x %x %s -" % (ty, 0x2424240000000000000000000000400c, b, o))
         out.append(("float-radix-exact", rops))
         rshort = []
         sel = rops[:(150 if quick else 2000)]
